@@ -175,6 +175,9 @@ fn classify(case: &mut Case, r: &Rendered, kinds: usize, key: &str) {
     if s.shorthand > 0 {
         case.label("has-shorthand");
     }
+    if s.import_like > 0 {
+        case.label("has-import-like-comment");
+    }
     if s.comments > 0 && s.commas > 0 && (s.escapes > 0 || s.block_strings > 0) && kinds >= 2 {
         case.nontrivial(&(key, &r.text));
     }
@@ -337,7 +340,7 @@ pub fn run(env: &Env) -> i32 {
     );
     rep.assume("columns are compared in Unicode scalar values; when a BOM or astral character precedes the token on its line the UTF-16 and BOM-less readings are accepted too (the statement does not fix the unit)");
     rep.assume("positions after a lone CR line terminator are not compared (pest and the spec disagree on whether CR alone ends a line); the structural oracle still applies");
-    rep.assume("trivia inside an #import line is limited to spaces (the extension's syntax is documented as a single comment-like line)");
+    rep.assume("trivia inside an #import line is limited to spaces between `#` and `import` and to spaces, tabs, commas and the BOM between the other parts (the extension's syntax is documented as a single comment-like line)");
     rep.assume("raw control characters other than TAB/LF/CR are never emitted unescaped (outside SourceCharacter in the October-2021 spec)");
 
     // known-finding probes (minimal inputs)
